@@ -258,6 +258,13 @@ class Evaluator(object):
     def site(self, kind, node, **d):
         if kind == "call" and d.get("callee") == "np.nonzero":
             d["callee"] = "np.where"  # one name for the one-argument index selection
+        if kind == "call" and d.get("callee") in ("re.match", "re.fullmatch", "re.search") and len(d.get("args") or ()) == 2 and d["args"][0].op == "glob":
+            # re.match(PATTERN, s) is PATTERN.match(s)
+            d["method"] = d["callee"].split(".")[-1]
+            d["base"] = d["args"][0]
+            d["args"] = tuple(d["args"][1:])
+            d["callee"] = "." + d["method"]
+            d["fn"] = None
         if kind == "call" and d.get("method") in tm.METHOD_ALIASES and d.get("base") is not None and d.get("fn") is None:
             # x.max(...) is recorded as the call np.max(x, ...) it abbreviates (the term is normalised the same way)
             d["callee"] = tm.METHOD_ALIASES[d["method"]]
@@ -706,6 +713,18 @@ class Evaluator(object):
             wh = tm.call(tm.ext("np.where"), (it.a[1][0],))
             self.site("call", st.iter, callee="np.where", fn=tm.ext("np.where"), base=None, args=(it.a[1][0],), kw=(), term=wh, via_filter=False, method=None)
             it = tm.call(tm.mk("builtin", "zip"), (tm.mk("star", wh),))
+        if it.op == "call" and tm.callee_name(it.a[0]) in ("itertools.chain", "itertools.chain.from_iterable") and it.a[1] and not it.a[2] and not st.orelse and not any(isinstance(n, ast.Break) for n in _own_loop_nodes(st)):
+            # for x in itertools.chain(A, B): the loop over A followed by the loop over B
+            parts_ = list(it.a[1])
+            if tm.callee_name(it.a[0]) == "itertools.chain.from_iterable":
+                parts_ = list(parts_[0].a) if len(parts_) == 1 and parts_[0].op in ("tuple", "list") else None
+            if parts_ and not any(z.op == "star" for z in parts_):
+                cur = env
+                for a_ in parts_:
+                    cur = self._for_core(st, cur, a_, None)
+                    if cur is None:
+                        return None
+                return cur
         if it.op == "comp" and it.a[0] in ("gen", "list") and len(it.a[2]) == 2 and not it.a[3] and not st.orelse:
             # for x in (x for xs in (A, B) for x in xs): the flattened generator is the nested loops it abbreviates
             it1, it2 = it.a[2]
